@@ -2,6 +2,7 @@ package main
 
 import (
 	"bytes"
+	"encoding/hex"
 	"encoding/base64"
 	"fmt"
 	"math/rand"
@@ -323,7 +324,11 @@ func (b *bastionSession) oneRequest(w *world, ls *logState) {
 }
 
 func mustState(s *session, id string) []byte {
-	b, err := s.w.GetCheckpoint(id)
+	st := s.readState(id) // deadline-protected when the store is wrapped
+	if st == "-" || st == "!" {
+		return nil
+	}
+	b, err := hex.DecodeString(st)
 	if err != nil {
 		return nil
 	}
